@@ -50,6 +50,14 @@ CLAIMED["C15"] = ("Proof: for every item list and every sink state, feed_into_mu
     "and all op strings up to length 6 over fused/non-fused scripted sources; prefix/count/drop-log oracle as monitor.",
     "5.C15", "Trusted: Coq kernel; hand-written model tied by correspondence; extraction; harness.",
     "Coq proof (induction over item list / op list) + model/impl differential execution")
+CLAIMED["C19"] = ("Proof: for every finite history of clone/wake/wake_by_ref/drop on the tree of foreign-side wakers (hence every interleaving) the model of the "
+    "repaired code never uses a released waker, wakes the caller's waker exactly once per successful wake operation, holds exactly one clone of the caller's "
+    "waker per live shared record (record count = number of foreign handles sharing it) and has released everything once all handles are gone; the pre-repair "
+    "code is proved to violate this (C19_v0_refuted). Model tied to cglue/src/task/mod.rs by differential execution through a real trait_obj!(.. as Future) "
+    "whose poll runs the script, exhaustive short + random long histories incl. wakers retained after the poll; counting Arc waker + allocator as monitor. "
+    "One genuine defect found and repaired (fix: bcca95f).",
+    "5.C19", "Trusted: Coq kernel; hand-written model tied by correspondence; extraction; harness; tarc::BaseArc and core::task vtable dispatch; cross-thread memory-model effects not modelled.",
+    "Coq invariant proof (induction over history) + model/impl differential execution")
 PENDING = "not yet built in this round (planned, see DESIGN.md section 5); not claimed until its theorem, tie and monitor exist"
 NA = {}
 
